@@ -673,6 +673,10 @@ func c16Step(c *fw.Ctx, a *c16Actor, st string, client lungo.IClient, engine *lu
 			note("err=%v", err)
 			_, err = coll.Indexes().DropOne(wctx, "_id_")
 			note("err=%v", err)
+			_, err = coll.Indexes().DropOneWithKey(wctx, bson.D{{Key: "no-such-key", Value: int32(1)}})
+			note("err=%v", err)
+			_, err = coll.Indexes().DropOneWithKey(wctx, bson.D{{Key: "_id", Value: int32(1)}})
+			note("err=%v", err)
 		case 2:
 			coll.InsertOne(wctx, bson.D{{Key: "u", Value: int32(1)}})
 			coll.InsertOne(wctx, bson.D{{Key: "u", Value: int32(1)}})
